@@ -75,16 +75,9 @@ def gen_scenario(rng, ops_range=(1, 25), w=None, raises=0.0, dup_in_create=0.0, 
     if traits and rng.random() < traits:
         # plain (non-handler) classes whose instances are value objects: all equal, hash alike or are
         # unhashable, or are falsy — the world must go by identity and by `is None`
-        bases = [[int(b) for b in ln.split()[3].split('=')[1].split(',') if b != '-'] for ln in lines
-                 if ln.startswith('class ')]
-        anc = []
-        for t, bs in enumerate(bases):
-            anc.append({t}.union(*[anc[b] for b in bs]))
         for t, m in enumerate(maps):
-            # (a handler must stay hashable and distinguishable: the dispatcher keys its registry by weak
-            # references, which compare like their referents — traits only where no handler class inherits them)
-            clean = all(maps[u] is None and kinds[u] != 'ctrl' for u in range(len(maps)) if t in anc[u])
-            if clean and rng.random() < 0.6:
+            # handler classes included: a dataclass component that listens to events is a value object too
+            if rng.random() < 0.6:
                 tr = rng.sample(['eq', 'falsy'], rng.randint(1, 2)) if kinds[t] in ('p', 'upd') else \
                     rng.sample(['eq', 'unhash', 'falsy'], rng.randint(1, 2))
                 if 'unhash' in tr and 'eq' in tr:
